@@ -451,6 +451,9 @@ def check(pid, tier, only=None, keep=False, jobs=None, list_only=False):
     qs = mod.queries(tier, seed)
     qs = [q for q in qs if tier == 'thorough' or q.tier == 'quick']
     if only: qs = [q for q in qs if re.search(only, q.name)]
+    if os.environ.get('GV_SAMPLE'):   # development aid: a deterministic sample of the thorough-only queries (no evidence file is written)
+        k = int(os.environ['GV_SAMPLE'])
+        qs = sorted([q for q in qs if q.tier != 'quick'], key=lambda q: hashlib.sha1((q.name + str(seed)).encode()).hexdigest())[:k]
     names = [q.name for q in qs]
     assert len(names) == len(set(names)), 'duplicate query names: %s' % [n for n in names if names.count(n) > 1][:5]
     if list_only:
@@ -571,7 +574,7 @@ def write_evidence(pid, tier, seed, recs, qs, violations, known, problems, wall,
             'cbmc 6.11 + minisat2/cadical/kissat are trusted'],
         wall_s=round(wall, 2), violations=len(violations))
     os.makedirs(os.path.join(ROOT, 'evidence'), exist_ok=True)
-    json.dump(ev, open(os.path.join(ROOT, 'evidence', pid + '.json'), 'w'), indent=1)
+    if not os.environ.get('GV_SAMPLE'): json.dump(ev, open(os.path.join(ROOT, 'evidence', pid + '.json'), 'w'), indent=1)
 
 def selftest(pid, only=None, nvec=6, jobs=8):
     """translator validation: for every distinct (harness, defs, entry, params) of the quick tier build (a) the generated C with gcc
